@@ -73,12 +73,27 @@ Section Dim3.
   Definition nthp3 (l : list pt3) (i : Z) : pt3 := nth (Z.to_nat i) l (Pt3 nzero nzero nzero).
   Definition up_z : pt3 := Pt3 nzero nzero none_.
 
+  (* the last ring of a sweep and the direction its cap is triangulated along (named so that theorems can refer to them) *)
+  Definition sweep_twist_angle (path : list pt3) (twist_degrees : T) (closed : bool) : T :=
+    let len := Z.of_nat (length path) in
+    if closed then twist_degrees / nofZ len else twist_degrees / nofZ (len - 1).
+  Definition sweep_last_points (profile : list pt2) (path : list pt3) (twist_degrees : T) (closed : bool) : list pt3 :=
+    let len := Z.of_nat (length path) in
+    let profile3 := map (fun p => pt2_as_pt3 p nzero) profile in
+    let twist_angle := sweep_twist_angle path twist_degrees closed in
+    let m_last := if closed then mt4_look_at_lh (nthp3 path (len - 2)) (nthp3 path 0) up_z
+                  else mt4_look_at_lh (nthp3 path (len - 2)) (nthp3 path (len - 1)) up_z in
+    map (fun p => pt3_add (pt4_as_pt3 (mt4_mul_pt4 m_last (pt3_as_pt4 (pt3_rotated_z p (twist_angle * nofZ (len - 1))) nzero)))
+                          (nthp3 path (len - 1))) profile3.
+  Definition sweep_end_normal (path : list pt3) : pt3 :=
+    let len := Z.of_nat (length path) in pt3_sub (nthp3 path (len - 1)) (nthp3 path (len - 2)).
+
   Definition sweep (profile : list pt2) (path : list pt3) (twist_degrees : T) (closed : bool) : option polyhedron :=
     let n := Z.of_nat (length profile) in
     let len := Z.of_nat (length path) in
     if (len <? 2)%Z then None else
     let profile3 := map (fun p => pt2_as_pt3 p nzero) profile in
-    let twist_angle := if closed then twist_degrees / nofZ len else twist_degrees / nofZ (len - 1) in
+    let twist_angle := sweep_twist_angle path twist_degrees closed in
     let m0 := if closed then mt4_look_at_lh (nthp3 path (len - 1)) (nthp3 path 1) up_z
               else mt4_look_at_lh (nthp3 path 0) (nthp3 path 1) up_z in
     let ring0 := map (fun p => pt3_add (pt4_as_pt3 (mt4_mul_pt4 m0 (pt3_as_pt4 p none_))) (nthp3 path 0)) profile3 in
@@ -87,16 +102,12 @@ Section Dim3.
     let ring_mid (i : Z) : list pt3 :=
       let m := mt4_look_at_lh (nthp3 path (i - 1)) (nthp3 path (i + 1)) up_z in
       map (fun p => pt3_add (pt4_as_pt3 (mt4_mul_pt4 m (pt3_as_pt4 (pt3_rotated_z p (twist_angle * nofZ i)) nzero))) (nthp3 path i)) profile3 in
-    let m_last := if closed then mt4_look_at_lh (nthp3 path (len - 2)) (nthp3 path 0) up_z
-                  else mt4_look_at_lh (nthp3 path (len - 2)) (nthp3 path (len - 1)) up_z in
-    let last_points :=
-      map (fun p => pt3_add (pt4_as_pt3 (mt4_mul_pt4 m_last (pt3_as_pt4 (pt3_rotated_z p (twist_angle * nofZ (len - 1))) nzero)))
-                            (nthp3 path (len - 1))) profile3 in
+    let last_points := sweep_last_points profile path twist_degrees closed in
     let pts := ring0 ++ flat_map ring_mid mid ++ last_points in
     let quads (k : Z) := map (quad n ((k - 1) * n)%Z (k * n)%Z) (nseq (length profile)) in
     let end_faces :=
       if closed then Some (map (quad n ((len - 1) * n) 0) (nseq (length profile)))
-      else match triangulate3d last_points (pt3_sub (nthp3 path (len - 1)) (nthp3 path (len - 2))) with
+      else match triangulate3d last_points (sweep_end_normal path) with
            | Some idx => Some (triples idx (Z.of_nat (length pts) - n))
            | None => None
            end in
